@@ -1,3 +1,221 @@
 import Usual.Common
-/-! Model driver for C18 (stub: not built yet). -/
-def main : IO Unit := IO.println "stub"
+import Usual.C18.Num
+import Usual.C18.CfParser
+import Usual.C18.Spec
+import Usual.C18.Config
+/-! Model driver for C18: config parser (line protocol, see FRAMEWORK.md and harness/C18/h.c).
+
+The four built-in schemas below are the same as the `struct CfSect` tables in harness/C18/h.c. -/
+open Usual Usual.C18
+
+def bs (s : String) : Bytes := s.toUTF8.toList
+
+/-- state of the user callbacks: dynamic key table and the log of section_start calls -/
+structure User where
+  tab : List ((Nat × Bytes) × Bytes) := []
+  starts : List Bytes := []
+
+def lkTab : List (Bytes × Int) := [(bs "one", 1), (bs "two", 2), (bs "Three", 3), (bs "uno", 1)]
+
+def byName (_top : Option Nat) (n : Bytes) : Option Nat :=
+  if n == bs "a" then some 10 else if n == bs "b" then some 11 else if n == bs "c" then some 12 else none
+
+def k (name : String) (ty : Ty) (ofs : Nat) (dflt : Option String := none) (rel := false)
+    (ro := false) (nr := false) : Key :=
+  { name := bs name, setter := some ty, getter := some (if ty == .file then .str else ty), rel := rel,
+    readOnly := ro, noReload := nr, ofs := ofs, dflt := dflt.map bs }
+
+def mainKeys0 : List Key := [
+  k "i" .int 0 (some "5"), k "u" .uint 1, k "b" .int 2 (some "0"), k "s" .str 3 (some "dflt"),
+  k "f" .file 4, k "t" .timeUsec 5 (some "1.5"), k "d" .timeDouble 6, k "l" (.lookup lkTab) 7 (some "one"),
+  k "ro" .int 8 (some "7") (ro := true), k "roa" .int 8, k "nr" .int 9 (some "3") (nr := true),
+  k "nrs" .str 10 (nr := true),
+  { name := bs "ns", setter := none, getter := some .int, ofs := 0, dflt := some (bs "9") },
+  { name := bs "ng", setter := some .int, getter := none, ofs := 11 },
+  k "a.b-c_d*" .int 12, k "" .str 13 ]
+
+def schema0 : List (Sect User) := [
+  { name := bs "main", keys := mainKeys0 },
+  { name := bs "two", keys := [k "s2" .str 20 (some "somedefault"), k "i2" .int 21] },
+  { name := bs "baddef", keys := [k "x" .int 30 (some "zz")] },
+  { name := [], keys := [k "k" .str 31] } ]
+
+def schema1 : List (Sect User) := [
+  { name := bs "main", keys := [k "i" .int 0 (some "5") (rel := true), k "s" .str 1 (some "dflt") (rel := true),
+                                k "abs" .int 40] },
+  { name := bs "two", baseLookup := some (fun top _ => top.map (fun _ => 2)),
+    keys := [k "s2" .str 0 (some "somedefault") (rel := true), k "t" .timeUsec 1 (rel := true),
+             k "nr" .int 2 (some "3") (rel := true) (nr := true)] },
+  { name := bs "nobase", baseLookup := some (fun _ _ => none), keys := [k "x" .int 0 (rel := true)] },
+  { name := bs "*", baseLookup := some byName,
+    keys := [k "x" .int 0 (some "1") (rel := true), k "y" .str 1 (rel := true)] },
+  { name := bs "shadowed", keys := [k "q" .int 41] } ]
+
+def dynSet (u : User) (base : Option Nat) (key val : Bytes) : User × Bool :=
+  match base with
+  | none => (u, false)
+  | some b =>
+    if key.head? == some 120 then (u, false)
+    else ({ u with tab := ((b, key), val) :: u.tab.filter (fun p => !(p.1 == (b, key))) }, true)
+
+def dynGet (u : User) (base : Option Nat) (key : Bytes) : Option Bytes :=
+  match base with
+  | none => none
+  | some b => u.tab.lookup (b, key)
+
+def startLog (u : User) (_top : Option Nat) (n : Bytes) : User × Bool :=
+  ({ u with starts := u.starts ++ [n] }, true)
+def startBad (u : User) (_top : Option Nat) (n : Bytes) : User × Bool :=
+  ({ u with starts := u.starts ++ [n] }, false)
+
+def schema2 : List (Sect User) := [
+  { name := bs "main", keys := [k "i" .int 0 (some "5"), k "s" .str 3], sectionStart := some startLog },
+  { name := bs "wo", setKey := some dynSet },
+  { name := bs "bad", sectionStart := some startBad },
+  { name := bs "*", baseLookup := some byName, setKey := some dynSet, getKey := some dynGet,
+    sectionStart := some startLog } ]
+
+def schemaOf (id : Nat) : Option (List (Sect User) × Option Nat) :=
+  match id with
+  | 0 => some (schema0, none)
+  | 1 => some (schema1, some 1)
+  | 2 => some (schema2, some 1)
+  | 3 => some (schema1, none)
+  | _ => none
+
+/-- pairs listed by `dump` -/
+def dumpList (id : Nat) : List (String × String) :=
+  match id with
+  | 0 => (mainKeys0.map fun key => ("main", String.ofList (key.name.map fun c => Char.ofNat c.toNat))) ++
+         [("two", "s2"), ("two", "i2"), ("baddef", "x"), ("", "k")]
+  | 2 => [("main", "i"), ("main", "s"), ("wo", "k1"), ("a", "k1"), ("a", "k2"), ("b", "k1"), ("zz", "k1")]
+  | _ => [("main", "i"), ("main", "s"), ("main", "abs"), ("two", "s2"), ("two", "t"), ("two", "nr"),
+          ("nobase", "x"), ("a", "x"), ("a", "y"), ("b", "x"), ("b", "y"), ("c", "x"), ("zz", "x"),
+          ("shadowed", "q"), ("shadowed", "x")]
+
+def slotList (id : Nat) : List Loc :=
+  match id with
+  | 0 => [0,1,2,3,4,5,6,7,8,9,10,11,12,13,20,21,30,31].map Loc.abs
+  | 2 => [.abs 0, .abs 3]
+  | _ => [.rel 1 0, .rel 1 1, .abs 40, .rel 2 0, .rel 2 1, .rel 2 2, .rel 10 0, .rel 10 1,
+          .rel 11 0, .rel 11 1, .rel 12 0, .rel 12 1, .abs 41]
+
+structure St where
+  files : List (Bytes × Bytes) := []
+  schema : Nat := 0
+  loaded : Bool := false
+  home : Option Bytes := some (bs "/home/u0")
+  store : Store User := { user := {} }
+
+def St.fs (s : St) (n : Bytes) : Option Bytes := s.files.lookup n
+
+def pwNam (n : Bytes) : Option Bytes :=
+  if n == bs "alice" then some (bs "/home/alice") else if n == bs "bob" then some (bs "/b") else none
+
+def St.env (s : St) : Env :=
+  { strtod := strtodC, fmtG := fmtG, home := s.home, pwUid := some (bs "/home/uid"), pwNam := pwNam }
+
+def St.cf (s : St) : Cf User :=
+  match schemaOf s.schema with
+  | some (sects, base) => { sects := sects, base := base, loaded := s.loaded }
+  | none => { sects := [], base := none, loaded := s.loaded }
+
+def evStr : Event → String
+  | .sect n => "S:" ++ toHex n
+  | .kv key v => "K:" ++ toHex key ++ "=" ++ toHex v
+
+def evsStr (l : List Event) : String := if l.isEmpty then "none" else ",".intercalate (l.map evStr)
+
+def errStr : Err → String
+  | .noFile => "nofile" | .depth => "depth" | .incl => "incl" | .badSect => "badsect"
+  | .badVal => "badval" | .syntax => "syntax" | .oob => "OOB" | .fuel => "FUEL"
+
+def cfErrStr : CfErr → String
+  | .unknownSect => "unknownsect" | .unknownKey => "unknownkey" | .noBase => "nobase"
+  | .expand => "expand" | .fillDefaults => "filldefaults" | .noSection => "nosection"
+  | .mainMissing => "mainmissing" | .parse e => errStr e
+
+def optHex : Option Bytes → String
+  | none => "nil"
+  | some b => toHex b
+
+def noNul (b : Bytes) : Bool := !b.contains 0
+
+def rawStr : Option Val → String
+  | none => "0"
+  | some (.int v) => toString v
+  | some (.uint v) => toString v
+  | some (.usec v) => toString v
+  | some (.dbl d) => toString d.bits
+  | some (.str v) => optHex v
+
+def clearLog (s : St) : St := { s with store := { s.store with log := none } }
+
+def step (s0 : St) (line : String) : St × String :=
+  let s := clearLog s0
+  match words line with
+  | ["#case"] => ({}, "#case")
+  | ["file", hn, hc] =>
+    match parseHex hn, parseHex hc with
+    | some n, some c =>
+      if !noNul n then (s, "bad-op") else
+      ({ s with files := (n, c) :: s.files.filter (fun p => !(p.1 == n)) }, "ok")
+    | _, _ => (s, "bad-op")
+  | ["parse", hn, fa] =>
+    match parseHex hn, fa.toNat? with
+    | some n, some failAt =>
+      if !noNul n then (s, "bad-op") else
+      let (evs, err, first) := parseIni s.fs (logHandler failAt) n []
+      -- the spec (line grammar) run next to the model: must agree (also proved)
+      let (evs2, err2, first2) := specParse s.fs (logHandler failAt) n []
+      let agree := evs == evs2 && err == err2 && first == first2
+      let res := match err with | none => "ok" | some _ => "fail"
+      let e := match first with | none => "none" | some e => errStr e
+      (s, s!"{res} {evsStr evs} live=0 ## err={e}{if agree then "" else " SPEC-DISAGREES"}")
+    | _, _ => (s, "bad-op")
+  | ["schema", id] =>
+    match id.toNat? with
+    | some i => if (schemaOf i).isSome then ({ s with schema := i, store := { user := {} } }, "ok") else (s, "bad-op")
+    | none => (s, "bad-op")
+  | ["loaded", v] =>
+    if v == "0" then ({ s with loaded := false }, "ok")
+    else if v == "1" then ({ s with loaded := true }, "ok") else (s, "bad-op")
+  | ["home", h] =>
+    if h == "nil" then ({ s with home := none }, "ok") else
+    match parseHex h with
+    | some b => if noNul b then ({ s with home := some b }, "ok") else (s, "bad-op")
+    | none => (s, "bad-op")
+  | ["load", hn] =>
+    match parseHex hn with
+    | some n =>
+      if !noNul n then (s, "bad-op") else
+      let st0 := { s.store with user := { s.store.user with starts := [] } }
+      let (st', ok) := cfLoadFile s.env s.cf s.fs st0 n
+      let e := match st'.log with | none => "none" | some e => cfErrStr e
+      let starts := if st'.user.starts.isEmpty then "none" else ",".intercalate (st'.user.starts.map toHex)
+      ({ s with store := st' }, s!"{if ok then "ok" else "fail"} starts={starts} live=0 ## err={e}")
+    | none => (s, "bad-op")
+  | ["set", hs, hk, hv] =>
+    match parseHex hs, parseHex hk, parseHex hv with
+    | some sc, some key, some v =>
+      if !(noNul sc && noNul key && noNul v) then (s, "bad-op") else
+      let (st', ok) := cfSet s.env s.cf s.store sc key v
+      let e := match st'.log with | none => "none" | some e => cfErrStr e
+      ({ s with store := st' }, s!"{if ok then 1 else 0} live=0 ## err={e}")
+    | _, _, _ => (s, "bad-op")
+  | ["get", hs, hk] =>
+    match parseHex hs, parseHex hk with
+    | some sc, some key =>
+      if !(noNul sc && noNul key) then (s, "bad-op") else
+      (s, optHex (cfGet s.env s.cf s.store sc key))
+    | _, _ => (s, "bad-op")
+  | ["dump"] =>
+    let items := (dumpList s.schema).map fun (sc, key) => optHex (cfGet s.env s.cf s.store (bs sc) (bs key))
+    let raws := (slotList s.schema).filterMap fun l =>
+      let r := rawStr (s.store.read l)
+      if r == "0" || r == "nil" then none
+      else some ((match l with | .abs o => s!"a{o}" | .rel b o => s!"r{b}.{o}") ++ "=" ++ r)
+    (s, ",".intercalate items ++ " ## " ++ (if raws.isEmpty then "none" else ",".intercalate raws))
+  | _ => (s, "bad-op")
+
+def main : IO Unit := runDriver ({} : St) step
